@@ -1119,10 +1119,17 @@ class Atoms:
         offsets = (self.num_atom_types, self.num_bond_types,
                    self.num_angle_types, self.num_dihedral_types, self.num_improper_types)
 
+        # keep pair_coeffs aligned with the atom types when only one of the two structures defines them (e.g. a
+        # structure loaded from a CIF extended by a parameterized pattern): types without parameters get an empty entry
+        if len(other.pair_coeffs) > 0 and len(self.pair_coeffs) < len(self.atom_type_elements):
+            self.pair_coeffs = np.append(self.pair_coeffs, [""] * (len(self.atom_type_elements) - len(self.pair_coeffs)))
+
         self.atom_type_elements = np.append(self.atom_type_elements, other.atom_type_elements)
         self.atom_type_masses = np.append(self.atom_type_masses, other.atom_type_masses)
         self.atom_type_labels = np.append(self.atom_type_labels, other.atom_type_labels)
         self.pair_coeffs = np.append(self.pair_coeffs, other.pair_coeffs)
+        if 0 < len(self.pair_coeffs) < len(self.atom_type_elements):
+            self.pair_coeffs = np.append(self.pair_coeffs, [""] * (len(self.atom_type_elements) - len(self.pair_coeffs)))
 
         self.bond_type_coeffs = np.append(self.bond_type_coeffs, other.bond_type_coeffs)
         self.angle_type_coeffs = np.append(self.angle_type_coeffs, other.angle_type_coeffs)
